@@ -187,6 +187,7 @@ pub fn generate<W: Write>(prop: &str, tier: &str, seed: u64, out: &mut W) {
     match prop {
         "C16" => gen_c16(&mut r, thorough, out),
         "C01" => gen_c01(&mut r, thorough, out),
+        "C06" | "C07" | "C08" | "C10" | "C13" | "C14" => gen_hist(prop, &mut r, thorough, out),
         _ => panic!("no generator for {prop}"),
     }
 }
@@ -296,6 +297,307 @@ fn gen_c01<W: Write>(r: &mut Rng, thorough: bool, out: &mut W) {
                 }
                 let rc = code & 1;
                 writeln!(out, "iter w=64 k={k} rc={rc} seq={}", s(&sq)).unwrap();
+            }
+        }
+    }
+}
+
+// ------------------------------------------------------------------ tables and histories
+
+const CODE_ORDER: [u8; 4] = [b'A', b'C', b'T', b'G'];
+const AMBIG: [u8; 11] = [b'R', b'Y', b'S', b'W', b'K', b'M', b'B', b'D', b'H', b'V', b'N'];
+
+pub fn pack(s_: &[u8]) -> u128 {
+    let mut v: u128 = 0;
+    for b in s_ {
+        let c = match b.to_ascii_uppercase() {
+            b'A' => 0,
+            b'C' => 1,
+            b'T' => 2,
+            _ => 3,
+        };
+        v = (v << 2) | c;
+    }
+    v
+}
+
+/// arms (k-1 letters) whose packed value is canonical under `rc`
+fn canonical_arms(r: &mut Rng, k: usize, rc: bool) -> Vec<u8> {
+    let a = rand_acgt(r, k - 1);
+    if rc {
+        let b = revcomp(&a);
+        if pack(&b) < pack(&a) {
+            return b;
+        }
+    }
+    a
+}
+
+pub struct GenTable {
+    pub names: Vec<String>,
+    pub rows: Vec<(Vec<u8>, Vec<u8>)>, // arms, cells
+}
+
+impl GenTable {
+    pub fn text(&self) -> String {
+        let n = if self.names.is_empty() { "~".to_string() } else { self.names.join(",") };
+        let rows: Vec<String> = self
+            .rows
+            .iter()
+            .map(|(a, c)| format!("{}:{}", pack(a), String::from_utf8_lossy(c)))
+            .collect();
+        format!("{}|{}", n, if rows.is_empty() { "~".to_string() } else { rows.join(",") })
+    }
+}
+
+/// `amb`: per-mille of ambiguity codes; every row has at least one non-gap cell
+pub fn rand_table(r: &mut Rng, k: usize, rc: bool, nsamp: usize, nrows: usize, prefix: &str, amb: usize, pool: &[Vec<u8>]) -> GenTable {
+    let names: Vec<String> = (0..nsamp).map(|i| format!("{prefix}{i}")).collect();
+    let mut rows: Vec<(Vec<u8>, Vec<u8>)> = Vec::new();
+    let style = r.below(4);
+    for _ in 0..nrows {
+        let arms = if !pool.is_empty() && r.chance(1, 2) { r.pick(pool).clone() } else { canonical_arms(r, k, rc) };
+        if rows.iter().any(|(a, _)| *a == arms) {
+            continue;
+        }
+        let base = *r.pick(&CODE_ORDER);
+        let mut cells: Vec<u8> = (0..nsamp)
+            .map(|_| {
+                let x = r.below(1000);
+                if x < amb {
+                    *r.pick(&AMBIG)
+                } else if x < amb + 200 {
+                    b'-'
+                } else if style == 0 || r.chance(1, 3) {
+                    *r.pick(&CODE_ORDER)
+                } else {
+                    base
+                }
+            })
+            .collect();
+        if cells.iter().all(|c| *c == b'-') {
+            let i = r.below(nsamp);
+            cells[i] = base;
+        }
+        rows.push((arms, cells));
+    }
+    GenTable { names, rows }
+}
+
+fn window_of(arms: &[u8], mid: u8) -> Vec<u8> {
+    let h = arms.len() / 2;
+    let mut w = arms[..h].to_vec();
+    w.push(mid);
+    w.extend_from_slice(&arms[h..]);
+    w
+}
+
+/// weed records that hit some of the table's rows (either strand), plus noise and Ns
+fn weed_records(r: &mut Rng, k: usize, t: &GenTable) -> String {
+    let mut recs: Vec<String> = Vec::new();
+    let nrec = 1 + r.below(3);
+    for _ in 0..nrec {
+        let l0 = r.below(k + 3);
+        let mut sq: Vec<u8> = rand_acgt(r, l0);
+        for (arms, _) in &t.rows {
+            if r.chance(1, 3) {
+                let mut w = window_of(arms, *r.pick(&CODE_ORDER));
+                if r.chance(1, 2) {
+                    w = revcomp(&w);
+                }
+                if r.chance(1, 4) {
+                    sq.push(b'N');
+                }
+                sq.extend_from_slice(&w);
+                let l1 = r.below(3);
+                let extra = rand_acgt(r, l1);
+                sq.extend_from_slice(&extra);
+            }
+        }
+        if sq.is_empty() {
+            sq.push(b'N');
+        }
+        recs.push(String::from_utf8(sq).unwrap());
+    }
+    recs.join("+")
+}
+
+const FTS: [&str; 4] = ["nofilter", "noconst", "noambig", "noambigorconst"];
+
+fn align_obs(r: &mut Rng, n: usize) -> String {
+    format!(
+        "align/{}/{}/{}/{}/{}",
+        r.below(n + 1),
+        r.pick(&FTS),
+        r.below(2),
+        r.below(2),
+        r.below(2)
+    )
+}
+
+fn pick_k(r: &mut Rng) -> (usize, usize) {
+    let k = *r.pick(&[5usize, 7, 9, 15, 21, 29, 31, 33, 35, 41, 63]);
+    let w = if k <= 31 && r.chance(4, 5) { 64 } else { 128 };
+    (k, w)
+}
+
+pub fn gen_hist<W: Write>(prop: &str, r: &mut Rng, thorough: bool, out: &mut W) {
+    let rounds = match (prop, thorough) {
+        ("C06", false) => 250,
+        ("C06", true) => 6000,
+        ("C10", false) => 200,
+        ("C10", true) => 5000,
+        (_, false) => 200,
+        (_, true) => 5000,
+    };
+    for round in 0..rounds {
+        let (k, w) = pick_k(r);
+        let rc = r.below(2) == 1;
+        let nsamp = match prop {
+            "C14" => 2 + r.below(11),
+            "C06" => 1 + r.below(12),
+            _ => 2 + r.below(7),
+        };
+        let nrows = r.below(14);
+        let amb = match prop {
+            "C14" => if r.chance(1, 4) { 100 } else { 0 },
+            _ => *r.pick(&[0usize, 50, 150, 400]),
+        };
+        let t0 = rand_table(r, k, rc, nsamp, nrows, "s", amb, &[]);
+        let pool: Vec<Vec<u8>> = t0.rows.iter().map(|x| x.0.clone()).collect();
+        let head = format!("hist w={w} k={k} rc={} start={}", rc as u8, t0.text());
+        match prop {
+            "C06" => {
+                // every flag combination is reached over the rounds; thresholds 0..n
+                let mut obs: Vec<String> = Vec::new();
+                for _ in 0..6 {
+                    obs.push(align_obs(r, nsamp));
+                }
+                // a monotonicity family: same flags, all thresholds (checked by the driver on the spec side too)
+                let ft = *r.pick(&FTS);
+                let (m, g, f) = (r.below(2), r.below(2), r.below(2));
+                for t in [0, nsamp / 2, nsamp] {
+                    obs.push(format!("align/{t}/{ft}/{m}/{g}/{f}"));
+                }
+                writeln!(out, "{head} ops=~ obs={}", obs.join(";")).unwrap();
+            }
+            "C07" => {
+                let nfiles = 1 + r.below(3);
+                let mut ops: Vec<String> = Vec::new();
+                for fi in 0..nfiles {
+                    let (ns, nr) = (1 + r.below(3), r.below(10));
+                    let t = rand_table(r, k, rc, ns, nr, &format!("f{fi}x"), amb, &pool);
+                    if round % 9 == 8 && fi == nfiles - 1 {
+                        // refused: other k or other strand mode
+                        if r.chance(1, 2) {
+                            let k2 = if k == 5 { 7 } else { k - 2 };
+                            let t2 = rand_table(r, k2, rc, 1, 3, "zz", 0, &[]);
+                            ops.push(format!("merge/{}/{}/{}", t2.text(), k2, rc as u8));
+                        } else {
+                            ops.push(format!("merge/{}/{}/{}", t.text(), k, 1 - rc as u8));
+                        }
+                    } else {
+                        ops.push(format!("merge/{}", t.text()));
+                    }
+                    if r.chance(1, 4) {
+                        ops.push("reload".into());
+                    }
+                }
+                writeln!(out, "{head} ops={} obs=nk", ops.join(";")).unwrap();
+            }
+            "C08" => {
+                let names = &t0.names;
+                let n = names.len();
+                let del: Vec<String> = match r.below(9) {
+                    0 => vec![names[0].clone()],
+                    1 => vec![names[n - 1].clone()],
+                    2 => names.iter().take(usize::max(1, n / 2)).cloned().collect(),
+                    3 => names.iter().step_by(2).cloned().collect(),
+                    4 => names.clone(),                                  // all: refused
+                    5 => vec!["nosuch".to_string()],                     // unknown: refused
+                    6 => vec![names[0].clone(), "nosuch".to_string()],   // partly unknown: refused
+                    7 => Vec::new(),                                     // none: refused
+                    _ => names.iter().filter(|_| r.chance(1, 2)).cloned().collect(),
+                };
+                let mut del = del;
+                if r.chance(1, 3) {
+                    r.shuffle(&mut del);
+                }
+                let d = if del.is_empty() { "~".to_string() } else { del.join("+") };
+                writeln!(out, "{head} ops=delete/{d} obs=nk").unwrap();
+            }
+            "C13" => {
+                let recs = weed_records(r, k, &t0);
+                let rev = r.below(2);
+                let w1 = format!("weed/{recs}/{rev}/0/0/nofilter/0/0");
+                // once, twice (idempotence), and the complementary half
+                writeln!(out, "{head} ops={w1} obs=nk").unwrap();
+                writeln!(out, "{head} ops={w1};{w1} obs=nk").unwrap();
+                writeln!(out, "{head} ops=weed/{recs}/{}/0/0/nofilter/0/0 obs=nk", 1 - rev).unwrap();
+            }
+            "C14" => {
+                let t = r.below(nsamp + 1);
+                writeln!(out, "{head} ops=~ obs=dist/{t}/{};dist/0/1;rawdist/{}", r.below(2), r.below(5)).unwrap();
+            }
+            _ => {
+                // C10: arbitrary histories
+                let len = 1 + r.below(if thorough { 8 } else { 5 });
+                let mut ops: Vec<String> = Vec::new();
+                let mut names: Vec<String> = t0.names.clone();
+                let mut fi = 0;
+                for _ in 0..len {
+                    match r.below(7) {
+                        0 | 1 => {
+                            fi += 1;
+                            let (ns, nr) = (1 + r.below(2), r.below(8));
+                            let t = rand_table(r, k, rc, ns, nr, &format!("m{fi}x"), amb, &pool);
+                            names.extend(t.names.iter().cloned());
+                            ops.push(format!("merge/{}", t.text()));
+                        }
+                        2 => {
+                            if names.len() >= 2 {
+                                let i = r.below(names.len());
+                                let nm = names.remove(i);
+                                ops.push(format!("delete/{nm}"));
+                            }
+                        }
+                        3 | 4 => {
+                            let recs = if r.chance(3, 4) { weed_records(r, k, &t0) } else { "~".to_string() };
+                            ops.push(format!(
+                                "weed/{recs}/{}/{}/{}/{}/{}/{}",
+                                r.below(2),
+                                if r.chance(1, 2) { 0 } else { r.below(names.len() + 1) },
+                                r.below(2),
+                                r.pick(&FTS),
+                                r.below(2),
+                                r.below(2)
+                            ));
+                        }
+                        5 => {
+                            // frequency / ambiguity filtering only
+                            ops.push(format!(
+                                "weed/~/0/{}/{}/{}/{}/{}",
+                                r.below(names.len() + 1),
+                                r.below(2),
+                                r.pick(&FTS),
+                                r.below(2),
+                                r.below(2)
+                            ));
+                        }
+                        _ => ops.push("reload".into()),
+                    }
+                }
+                let n = names.len();
+                let obs = format!(
+                    "nk;{};{};{};dist/{}/{}",
+                    align_obs(r, n),
+                    align_obs(r, n),
+                    format!("align/{}/nofilter/0/0/0", n),
+                    r.below(n + 1),
+                    r.below(2)
+                );
+                let o = if ops.is_empty() { "~".to_string() } else { ops.join(";") };
+                writeln!(out, "{head} ops={o} obs={obs}").unwrap();
             }
         }
     }
